@@ -317,7 +317,17 @@ def one_history(seed):
             if st == steps:
                 break
             # next operation: change values, or replace a constraint (remove + add) keeping the system square
-            if rnd.random() < 0.5:
+            if rnd.random() < 0.3:
+                # the solver moves the evaluator's point through an x vector; the user then assigns every variable the value it
+                # had before (a reset to the initial guess): the evaluator must be back at the assigned point
+                try:
+                    x = m.get_x()
+                    m.load_var_values_from_x(x + 0.75)
+                    for v in vs:
+                        leaves[v].value = vals["var"][v]
+                except Exception as ex:
+                    build = "%s: %s" % (type(ex).__name__, str(ex)[:80])
+            elif rnd.random() < 0.5:
                 v = rnd.choice(vs)
                 nv = rnd.choice([0.5, 1.0, 1.5, 2.0, -1.0, 0.25, 3.0, 0.0, 2.5])
                 vals["var"][v] = nv
